@@ -227,6 +227,13 @@ theorem makeNodeT_spec {succ : List PEntry} {lm : List (Nat × Nat)} {n : Nat}
             refine (M.bind_eq_ok hname).trans ?_
             simp only [if_true]
             refine (M.bind_eq_ok hlv).trans ?_
+            refine (M.bind_eq_ok (functionLevel_ok m2 lo mlo)).trans ?_
+            refine (M.bind_eq_ok (functionLevel_ok m2 hi mhi)).trans ?_
+            have hchk : (!(decide (ln.lvl < m2.tbl.levelOf lo) && decide (ln.lvl < m2.tbl.levelOf hi))) = false := by
+              have a1 : ln.lvl < m2.tbl.levelOf lo := llo'
+              have a2 : ln.lvl < m2.tbl.levelOf hi := lhi'
+              simp [a1, a2]
+            simp only [hchk, Bool.false_eq_true, if_false]
             refine (M.bind_eq_ok hfe).trans ?_
             refine (M.bind_eq_ok ewu).trans ?_
             refine (withTemps_eq inner).trans ?_
@@ -443,58 +450,45 @@ theorem refOf_exact (m : Mgr) (e : Nat → Nat) (h : GoodState m e) (u : Int) (h
   have hg := h.exact.get hu
   exact ⟨_, refOf_eq m u _ hg, by omega⟩
 
-/-- the loop `for uid in cache:` of `_load_json` with `load_order=True`: the `ref < 3`
-assertion passes as well -/
-theorem releaseLoopT_spec {succ : List PEntry} {lm : List (Nat × Nat)} {n : Nat}
-    (hs : SuccWF succ n) (hdom : ∀ k e, PEntry.find succ k = some e → k ≠ 1 → (lm.lookup e.lvl).isSome)
+/-- the loop of the checks at the end of the `try:` of `_load_json` with `load_order=True`: the
+`ref < 3` assertion passes as well (nothing has been released yet: every entry of the shelf still
+holds its reference) -/
+theorem checkLoopT_spec {succ : List PEntry} {lm : List (Nat × Nat)} {n : Nat}
     (cache : List (Nat × Int)) (hn : (cache.map (·.1)).Nodup) :
     ∀ (ents : List (Nat × Int)) (prev : Option Int) (m : Mgr) (e : Nat → Nat),
-      (∀ p ∈ ents, p ∈ cache) → ShelfOK succ lm n m.tbl cache → JustL m.tbl e ents →
-      GoodState m (extAdd e (ents.map (·.2.natAbs) ++ prev.toList.map Int.natAbs)) →
-      ∃ last r, releaseLoop true cache ents prev m = (.ok (), last, { m with ref := r }) ∧
-        GoodState { m with ref := r } (extAdd e (last.toList.map Int.natAbs)) := by
+      ents <:+ cache → ShelfOK succ lm n m.tbl cache → JustL m.tbl e ents →
+      GoodState m (extAdd e (prev.toList.map Int.natAbs ++ shelfRefs cache)) →
+      ∃ last r, checkLoop true cache ents prev m = (.ok (), last, { m with ref := r }) ∧
+        GoodState { m with ref := r } (extAdd e (last.toList.map Int.natAbs ++ shelfRefs cache)) := by
   intro ents
   induction ents with
   | nil =>
     intro prev m e _ _ _ h
-    exact ⟨prev, m.ref, rfl, by simpa using h⟩
+    exact ⟨prev, m.ref, rfl, h⟩
   | cons p rest ih =>
-    intro prev m e hsub hc hj h
-    obtain ⟨k, u0⟩ := p
+    intro prev m e hsuf hc hj h
+    obtain ⟨k, u⟩ := p
     obtain ⟨hj0, hjr⟩ := hj
-    have hlk : cache.lookup k = some u0 := dmp_lookup_of_mem_nodup cache hn k u0 (hsub _ List.mem_cons_self)
-    obtain ⟨u0pos, u0mem, hk1, _, _⟩ := hc k u0 hlk
-    have hnat : ((k : Int)).natAbs = k := by simp
-    obtain ⟨u, r1, e1, g1, mu, su, _, hlu, _⟩ := nodeFromInt_spec hs hdom m _ h cache hc (k : Int)
-      (Or.inr (by rw [hnat, hlk]; rfl))
-    have hu : u = u0 := by
-      have := hlu (by rw [hnat]; exact hk1)
-      rw [hnat, hlk] at this
-      have hneg : ¬ ((k : Int) < 0) := by omega
-      simp only [hneg, if_false, Option.some.injEq] at this
-      exact this.symm
-    subst hu
-    have hperm : (u.natAbs :: ((k, u) :: rest).map (·.2.natAbs) ++ prev.toList.map Int.natAbs).Perm
-        (prev.toList.map Int.natAbs ++ (u.natAbs :: u.natAbs :: rest.map (·.2.natAbs))) := by
-      simp only [List.map_cons]
-      exact List.perm_append_comm
-    rw [extInc_extAdd] at g1
+    have hmem : (k, u) ∈ cache := hsuf.subset List.mem_cons_self
+    have hlk : cache.lookup k = some u := dmp_lookup_of_mem_nodup cache hn k u hmem
+    obtain ⟨_, u0mem, hk1, _, _⟩ := hc k u hlk
+    have hin : u.natAbs ∈ shelfRefs cache := List.mem_map.mpr ⟨(k, u), hmem, rfl⟩
+    obtain ⟨r1, e1, g1⟩ := fetch_shelf e cache hn k u hmem hk1 m _ h (List.mem_append_right _ hin)
     have g1' : GoodState { m with ref := r1 }
-        (extAdd e (prev.toList.map Int.natAbs ++ (u.natAbs :: u.natAbs :: rest.map (·.2.natAbs)))) := by
-      rw [← extAdd_perm e hperm]; simpa using g1
-    obtain ⟨r2, ed, g2⟩ : ∃ r2, dropOpt prev { m with ref := r1 } = { m with ref := r2 } ∧
-        GoodState { m with ref := r2 } (extAdd e (u.natAbs :: u.natAbs :: rest.map (·.2.natAbs))) := by
-      cases prev with
-      | none => exact ⟨r1, rfl, by simpa using g1'⟩
-      | some p =>
-        simp only [Option.toList, List.map_cons, List.map_nil, List.cons_append, List.nil_append] at g1'
-        obtain ⟨r2, hd, hg⟩ := dmp_drop_spec { m with ref := r1 } _ g1' p (extAdd_pos _ _ _)
-        rw [extDec_extAdd] at hg
-        exact ⟨r2, hd, hg⟩
+        (extAdd e (prev.toList.map Int.natAbs ++ (u.natAbs :: shelfRefs cache))) := by
+      apply g1.permL
+      exact List.perm_middle.symm
+    obtain ⟨r2, ed, g2⟩ := dropOpt_spec e prev { m with ref := r1 } _ g1'
     obtain ⟨c, hc1, hc2⟩ := refOf_exact { m with ref := r2 } _ g2 u u0mem
+    -- the shelf holds `u` once for this entry and once more for every later entry of the same node
+    obtain ⟨pre, hpre⟩ := hsuf
+    have hcnt : 1 + (rest.map (·.2.natAbs)).count u.natAbs ≤ (shelfRefs cache).count u.natAbs := by
+      rw [← hpre]
+      simp only [shelfRefs, List.map_append, List.map_cons, List.count_append, List.count_cons_self]
+      omega
     have hc3 : 3 ≤ c := by
-      have hcount : extAdd e (u.natAbs :: u.natAbs :: rest.map (·.2.natAbs)) u.natAbs
-          = e u.natAbs + 2 + (rest.map (·.2.natAbs)).count u.natAbs := by
+      have hcount : extAdd e (u.natAbs :: shelfRefs cache) u.natAbs
+          = e u.natAbs + 1 + (shelfRefs cache).count u.natAbs := by
         simp [extAdd]; omega
       rw [hcount] at hc2
       have hi : indeg ({ m with ref := r2 } : Mgr).tbl u.natAbs = indeg m.tbl u.natAbs := rfl
@@ -508,27 +502,17 @@ theorem releaseLoopT_spec {succ : List PEntry} {lm : List (Nat × Nat)} {n : Nat
         omega
       · have : 0 < indeg m.tbl u.natAbs := h'
         omega
-    obtain ⟨r3, hd3, g3⟩ := decref_ok_spec { m with ref := r2 } _ g2 u (extAdd_pos _ _ _)
-    rw [extDec_extAdd] at g3
     have hbody : (refOf u >>= fun c => M.assert (decide (2 ≤ c)) >>= fun _ =>
-        if True then (M.assert (decide (3 ≤ c)) >>= fun _ => decref u) else decref u)
-        { m with ref := r2 } = (.ok (), { m with ref := r3 }) := by
+        if True then M.assert (decide (3 ≤ c)) else pure ())
+        { m with ref := r2 } = (.ok (), { m with ref := r2 }) := by
       refine (M.bind_eq_ok hc1).trans ?_
       refine (M.bind_eq_ok (assert_ok _ _ (by simp; omega))).trans ?_
       simp only [if_true]
-      refine (M.bind_eq_ok (assert_ok _ _ (by simpa using hc3))).trans ?_
-      exact hd3
-    have g3' : GoodState { m with ref := r3 }
-        (extAdd e (rest.map (·.2.natAbs) ++ (some u).toList.map Int.natAbs)) := by
-      have hp : (u.natAbs :: rest.map (·.2.natAbs)).Perm
-          (rest.map (·.2.natAbs) ++ (some u).toList.map Int.natAbs) := by
-        simp only [Option.toList, List.map_cons, List.map_nil]
-        exact List.perm_append_singleton _ _ |>.symm
-      rw [← extAdd_perm e hp]; exact g3
-    obtain ⟨last, r4, e4, g4⟩ := ih (some u) { m with ref := r3 } e
-      (fun p hp => hsub p (List.mem_cons_of_mem _ hp)) hc hjr g3'
+      exact assert_ok _ _ (by simpa using hc3)
+    obtain ⟨last, r4, e4, g4⟩ := ih (some u) { m with ref := r2 } e
+      ⟨pre ++ [(k, u)], by rw [List.append_assoc]; exact hpre⟩ hc hjr (by simpa using g2)
     refine ⟨last, r4, ?_, g4⟩
-    rw [releaseLoop]
+    rw [checkLoop]
     simp only [e1, ed]
     rw [hbody]
     exact e4
@@ -1026,8 +1010,11 @@ theorem loadJson_true_spec (f : JsonFile) (hf : JsonWF f) (hrt : Rooted f)
       rcases hch with hc' | hc'
       · exact ⟨ln'.id, u', _, ln'.lo, hu', hfind', Or.inl rfl, hc', hk1⟩
       · exact ⟨ln'.id, u', _, ln'.hi, hu', hfind', Or.inr rfl, hc', hk1⟩
-  obtain ⟨last, r5, erl, g5⟩ := releaseLoopT_spec hwf.succ hdom added n3 added none { m3 with ref := r4 }
-    (extAdd e (us.map Int.natAbs)) (fun _ h => h) c3 hjust g4'
+  obtain ⟨last0, r0, eck, g0⟩ := checkLoopT_spec added n3 added none { m3 with ref := r4 }
+    (extAdd e (us.map Int.natAbs)) (List.suffix_refl _) c3 hjust (by simpa [shelfRefs] using g4')
+  obtain ⟨last, r5, erl, g5⟩ := releaseFailed_spec (extAdd e (us.map Int.natAbs)) added n3 (shelfOK_ids n3 c3)
+    added last0 { m3 with ref := r0 } [] (fun _ h => h) (by simpa using g0)
+  simp only [List.append_nil] at g5
   obtain ⟨r6, ed6, g6⟩ : ∃ r6, dropOpt last { m3 with ref := r5 } = { m3 with ref := r6 } ∧
       GoodState { m3 with ref := r6 } (extAdd e (us.map Int.natAbs)) := by
     cases last with
@@ -1072,8 +1059,8 @@ theorem loadJson_true_spec (f : JsonFile) (hf : JsonWF f) (hrt : Rooted f)
   let mz : Mgr := { m3 with ref := r5, lastLen := newLen }
   let mf : Mgr := { m3 with ref := r6, lastLen := newLen }
   refine ⟨f.roots.rebuild us, mf, ?_, ?_, ?_, ?_, pn3.congr rfl rfl, rfl, ?_, ?_, ?_, ?_⟩
-  · rw [loadJson_true_eq, h0, jsonTry_ok f true hsome tgt m2 m3 { m3 with ref := r4 } added us
-      (jsonHeader_true f tgt m1 m2 ed ero) emk er]
+  · rw [loadJson_true_eq, h0, jsonTry_ok f true hsome tgt m2 m3 { m3 with ref := r4 } { m3 with ref := r0 }
+      added us last0 (jsonHeader_true f tgt m1 m2 ed ero) emk er eck]
     unfold jsonFinish
     simp only [erl, if_true]
     have hfin : (liftE (Except.ok ()) >>= fun _ => dmpAssertConsistent >>= fun _ =>
